@@ -20,7 +20,7 @@ import XjsModel.Props.C12
   Decided by the correspondence run and the model-free oracle (independent unparser in many layouts, goja/acorn as
   reference parsers): automatic semicolon insertion, layout independence (whitespace, comments), SOUNDNESS (that no
   other text is accepted with another grouping than ECMAScript's).
-  Known findings there: restricted-production (D2), bare-cr (D10).
+  Known finding there: bare-cr (D10) (restricted productions: repaired, f7f7cd3).
 -/
 namespace Xjs.C02
 open Xjs Xjs.RS
